@@ -58,6 +58,7 @@ type Opt struct {
 	Reverse    bool // remote-write: labels of every series in reverse order
 	// request context, not part of the body
 	TTLDays uint16 // value of the X-Ttl-Days header (context value TTL_DAYS); 0 = absent
+	Reader  int    // how the body arrives (see arrival.go): 0 whole, 1..7 short reads, 8 EOF with the last bytes, 9 (0,nil) once
 }
 
 // jstr writes s as a JSON string with the minimal escapes (the bytes of s are otherwise copied verbatim, so a
